@@ -17,13 +17,18 @@ def suites(tier):
     if tier == "quick":
         nmax, mmax = 3, 2
     else:
-        nmax, mmax = 5, 3
+        nmax, mmax = 4, 3
     for cfg in product(scheme=[0, 1, 2], cs=[0], fwd=[0, 1]):
         cfg.update(norm=0, pos=0, rep=0, pk=0, slab=0, best=1, nmin=0, nmax=nmax, mmin=1, mmax=mmax, c16=0, c32=0)
         jobs.append(dict(id=jid("v2", cfg), func="zzH_C03_v2", cfg=cfg))
+    if tier != "quick":
+        # one character longer for two-character patterns, default scheme
+        for cfg in product(scheme=[0], cs=[0], fwd=[0, 1]):
+            cfg.update(norm=0, pos=0, rep=0, pk=0, slab=0, best=1, nmin=5, nmax=5, mmin=1, mmax=2, c16=0, c32=0)
+            jobs.append(dict(id=jid("v2long", cfg), func="zzH_C03_v2", cfg=cfg))
     # single-character patterns on longer lines (window trimming of the ASCII pre-filter)
     for cfg in product(scheme=[0], cs=[0], fwd=[0, 1]):
-        cfg.update(norm=0, pos=0, rep=3, pk=2, slab=0, best=1, nmin=4, nmax=4 if tier == "quick" else 6, mmin=1, mmax=1 if tier == "quick" else 2, c16=0, c32=0)
+        cfg.update(norm=0, pos=0, rep=3, pk=2, slab=0, best=1, nmin=4, nmax=4 if tier == "quick" else 5, mmin=1, mmax=1 if tier == "quick" else 2, c16=0, c32=0)
         jobs.append(dict(id=jid("v2tiny", cfg), func="zzH_C03_v2", cfg=cfg))
     # non-ASCII runes
     for cfg in product(scheme=[0], cs=[0], norm=[0, 1], fwd=[1]):
@@ -33,7 +38,7 @@ def suites(tier):
     for cfg in product(scheme=[0], cs=[0], fwd=[0, 1], c16=[16, 40]):
         cfg.update(norm=0, pos=0, rep=0, pk=0, slab=1, best=0, nmin=1, nmax=nmax, mmin=1, mmax=mmax, c32=12)
         jobs.append(dict(id=jid("v2slab", cfg), func="zzH_C03_v2", cfg=cfg))
-    occn = nmax if tier == "quick" else nmax + 1
+    occn = nmax if tier == "quick" else 5
     for cfg in product(kind=[0, 2, 3, 5], scheme=[0, 1], fwd=[0, 1]):
         cfg.update(cs=0, norm=0, pos=0, rep=0, pk=0, nmin=0, nmax=occn, mmin=1, mmax=mmax)
         jobs.append(dict(id=jid("occ", cfg), func="zzH_C03_occ", cfg=cfg))
